@@ -77,12 +77,21 @@ Theorem C06_maxwelfare_mult : forall (A : Type) (s : A -> proj -> Q) I (P : list
 Proof. exact (fun A s I P enum init => conj (score_list_mult s P (nproj I)) (maxwelfare_mult s I P enum init)). Qed.
 Print Assumptions C06_maxwelfare_mult.
 
-(* ---- M rule: social_welfare_comparison (Model/Composition.v): same winners ---- *)
+(* ---- M rule: social_welfare_comparison (Model/Composition.v): same winners.  [xout mults o] is the outcome o as the
+        expanded (list) satisfaction profile sees it: the satisfaction of every class repeated by its multiplicity;
+        [xmults mults] the multiplicities (all 1) of the expanded profile ---- *)
 Theorem C06_social_welfare_comparison_mult : forall mults outs,
   map Composition.o_alloc (Composition.swc (xmults mults) (map (xout mults) outs))
   = map Composition.o_alloc (Composition.swc mults outs).
 Proof. exact swc_mult_allocs. Qed.
 Print Assumptions C06_social_welfare_comparison_mult.
+
+(* ---- M rule: popularity_comparison: every class supports, with its multiplicity, what each of its copies supports ---- *)
+Theorem C06_popularity_comparison_mult : forall mults outs,
+  map Composition.o_alloc (Composition.popularity (xmults mults) (map (xout mults) outs))
+  = map Composition.o_alloc (Composition.popularity mults outs).
+Proof. exact popularity_mult_allocs. Qed.
+Print Assumptions C06_popularity_comparison_mult.
 
 (* ---- Equal Shares (Model/MesRule.v): every multiplicity-weighted quantity of the model = the quantity over the
         expanded voters: money per voter copy, total utility of a project, money of its supporters ---- *)
@@ -226,12 +235,7 @@ Print Assumptions C06_total_satisfaction_mult.
    Missing: the sweep over a class of k supporters behaves as the sweep over k supporters
      0 < u -> Qnat (S k) * u <= denom ->
      sweep cost contrib denom (repeat (mkSup b u 1) (S k) ++ r) ~ sweep cost contrib denom (mkSup b u (Qnat (S k)) :: r)
-   and the simulation of run_res through the re-indexing of voters.
-
-   popularity_comparison (Model/Composition.v) --
-     forall mults outs, (forall o, In o outs -> length (o_vsat o) = length mults) ->
-     map o_alloc (popularity (xmults mults) (map (xout mults) outs)) = map o_alloc (popularity mults outs).
-   (social_welfare_comparison is proved: C06_social_welfare_comparison_mult.) *)
+   and the simulation of run_res through the re-indexing of voters. *)
 
 (* non-vacuity: a profile with a ballot cast three times; classes vs expanded voters, concrete values *)
 Example C06_nonvacuous :
